@@ -40,6 +40,31 @@ def with_deadline(fn, seconds=DEADLINE):
     return box.get('r')
 
 
+class fast_timeouts:
+    """`Worker` polls its queue with `timeout=1.` (so every regular exit of a worker costs up to 1 s).  Inside this
+    context `tenpy.tools.thread.queue` is a copy of the real module whose `Queue` caps timeouts at 20 ms: same
+    semantics (a timeout may always fire), real threads, 50x faster shutdown."""
+
+    def __enter__(self):
+        import queue as real_queue
+        import types
+        import tenpy.tools.thread as tt
+
+        class Queue(real_queue.Queue):
+            def get(self, block=True, timeout=None):
+                return super().get(block, None if timeout is None else min(timeout, 0.02))
+
+            def put(self, item, block=True, timeout=None):
+                return super().put(item, block, None if timeout is None else min(timeout, 0.02))
+        mod = types.ModuleType('queue_fast')
+        mod.Queue, mod.Empty, mod.Full = Queue, real_queue.Empty, real_queue.Full
+        self.tt, self.old = tt, tt.queue
+        tt.queue = mod
+
+    def __exit__(self, *a):
+        self.tt.queue = self.old
+
+
 def exc_of(fn):
     try:
         fn()
@@ -101,7 +126,7 @@ def run_events_case(case):
     def make(cb, action):
         def f(*args, **kwargs):
             calls.append((cb, args, dict(kwargs)))
-            if action and not f.fired:
+            if action and not f.fired and state.get('in_emit'):
                 f.fired = True
                 if action[0] == 'disconnect_self':
                     do_disconnect(f.lid)
@@ -179,7 +204,11 @@ def run_events_case(case):
             if op[0] == 'emit':
                 args = tuple(range(op[1]))
                 kwargs = {'kw': 7} if op[2] else {}
-                res = eh.emit(*args, **kwargs)
+                state['in_emit'] = True        # re-entrant actions (connect/disconnect from a listener) fire here
+                try:
+                    res = eh.emit(*args, **kwargs)
+                finally:
+                    state['in_emit'] = False
             else:
                 args, kwargs = (0,), {}
                 stop.clear()
@@ -200,12 +229,13 @@ def run_events_case(case):
             if op[0] == 'emit':
                 if len(set(got)) != len(got):
                     return 'events.emit.listener-called-twice', f'{where}: {got}'
+                reentrant = any(o[0] == 'connect' and o[5] and o[5][0].startswith('disconnect') for o in case['ops'])
                 if len(NAMED_CALLS) != n_named:
-                    return 'events.emit.by-name-listener-calls', f'{where}: {len(NAMED_CALLS)} expected {n_named}'
+                    return ('events.emit.listener-skipped-after-disconnect-during-emit' if reentrant else
+                            'events.emit.by-name-listener-calls'), f'{where}: {len(NAMED_CALLS)} expected {n_named}'
                 still = {l['cb'] for l in live}
                 missing = [l['cb'] for l in start if not l['by_name'] and l['cb'] in still and l['cb'] not in got]
                 if missing:
-                    reentrant = any(o[0] == 'connect' and o[5] and o[5][0].startswith('disconnect') for o in case['ops'])
                     return ('events.emit.listener-skipped-after-disconnect-during-emit' if reentrant
                             else 'events.emit.listener-not-called'), f'{where}: called {got}, never called {missing}'
                 order = [l['cb'] for l in start if l['cb'] in got]
@@ -389,7 +419,7 @@ def run_open_case(case):
                 r2 = run_mapping_ops(sub, case['ops'][:6])
                 if r2[0]:
                     res[:] = ('sub' + r2[0], r2[1])
-                elif run_mapping_ops(c, [['items']])[0]:      # the parent is untouched by the sub-cache
+                elif sorted(c.items()) != sorted(res[1].items()):      # the parent is untouched by the sub-cache
                     res[:] = ('cache.subcache.not-isolated', '')
         if case['how'] == 'close':
             body(cache)
@@ -428,13 +458,16 @@ def run_open_case(case):
             if not left or (path and not os.path.exists(path)):
                 return 'cache.close.delete-False-but-removed', str(left)
             d = res[1]
-            if sc == 'PickleStorage':
+            lost = 'cache.threaded.close-drops-pending-saves' if case['use_threading'] else None
+            if case['how'] == 'with-exception':
+                d = None            # leaving the block with an exception: no promise about what reached the disk
+            if d is not None and sc == 'PickleStorage':
                 files = set()
                 for root, _, fs in os.walk(tmp):
                     if os.path.basename(root) != 'sub':
                         files |= {f[:-4] for f in fs}
                 if files != set(d):
-                    return 'cache.delete-False.files-differ-from-keys', f'{sorted(files)} vs {sorted(d)}'
+                    return lost or 'cache.delete-False.files-differ-from-keys', f'{sorted(files)} vs {sorted(d)}'
             if sc == 'Hdf5Storage' and path:
                 # re-open the kept file (mode 'a'); with a subgroup that exists already
                 with warnings.catch_warnings():
@@ -446,9 +479,11 @@ def run_open_case(case):
                         return ('cache.hdf5.open-existing-subgroup-raises' if case['subgroup'] else
                                 'cache.hdf5.reopen-raises'), f'{type(e).__name__}: {e}'
                 from tenpy.tools.hdf5_io import load_from_hdf5
-                for k, v in d.items():
-                    if load_from_hdf5(c2.long_term_storage.h5gr, k) != v:
-                        return 'cache.hdf5.reopen-data', k
+                gr = c2.long_term_storage.h5gr
+                for k, v in (d or {}).items():
+                    if k not in gr or load_from_hdf5(gr, k) != v:
+                        c2.close()
+                        return lost or 'cache.hdf5.reopen-data', k
                 c2['fresh'] = 1
                 c2.close()
                 if os.path.exists(path):
@@ -547,6 +582,10 @@ def run_misc_cache_case(case):
                         if st.load('a') != 5 or sub.load('a') != 6 or not bool(st):
                             return 'storage.direct.load', cls.__name__
                         st.delete('a')
+                        if cls is not C.Storage:
+                            st.delete('a')      # deleting an absent key is a no-op for the disk storages
+                        if cls is not C.Storage and exc_of(lambda: st.delete('never')) is not None:
+                            return 'storage.delete-absent-raises', cls.__name__
                     if bool(st) or bool(sub):
                         return 'storage.exit.not-closed', cls.__name__
                     for nm in ('load', 'delete', 'preload', 'subcontainer'):
@@ -554,6 +593,25 @@ def run_misc_cache_case(case):
                             return f'storage.use-after-close.{nm}', cls.__name__
                     if exc_of(lambda: st.save('a', 1)) != 'ValueError' or exc_of(st.close) != 'ValueError':
                         return 'storage.use-after-close.save', cls.__name__
+                # private array storages after close; a sub-container of a ThreadedStorage closed on its own
+                for cls in (C._NumpyStorage, C._NpcArrayStorage):
+                    st = cls.open(tmpdir=tmp)
+                    st.close()
+                    if exc_of(lambda: st.load('a')) != 'ValueError' or exc_of(lambda: st.save('a', np.zeros(2))) != 'ValueError':
+                        return 'storage.use-after-close.array-storage', cls.__name__
+                with fast_timeouts():
+                    c = C.CacheFile.open('PickleStorage', use_threading=True, tmpdir=tmp)
+                    sub = c.create_subcache('s')
+                    sub['a'] = 1
+                    c['a'] = 2
+                    sub.long_term_storage.close()       # not the owner of the worker: only marks itself closed
+                    if c['a'] != 2 or not bool(c):
+                        return 'cache.threaded.sub-close-affects-parent', ''
+                    sub2 = c.create_subcache('t')
+                    sub2.long_term_storage.__exit__(None, None, None)
+                    if c['a'] != 2 or not c.long_term_storage.worker.worker_thread.is_alive():
+                        return 'cache.threaded.sub-close-affects-parent', 'exit'
+                    c.close()
             return (None, None) if not os.listdir(tmp) else ('cache.close.files-left-behind', 'direct')
         raise ValueError(which)
     finally:
@@ -687,7 +745,7 @@ def run_worker_case(case):
         r = with_deadline(go)
     except Timeout:
         return 'worker.hang.' + sc, f'no termination within {DEADLINE} s'
-    return (r, case['scenario']) if isinstance(r, str) else ((r[0], r[1]) if r else (None, None))
+    return r if r else (None, None)
 
 
 def logging_off():
@@ -716,8 +774,10 @@ FIXED = [
      'ops': [['set', 0, 1], ['set', 1, 2], ['pop', 1]]},
     {'part': 'api', 'kind': 'open', 'storage_class': 'PickleStorage', 'use_threading': True, 'delete': False,
      'explicit_path': True, 'max_queue_size': 1, 'how': 'with-exception', 'subgroup': False, 'sub': True,
-     'ops': [['set', 0, 1], ['update', [1, 2], 5], ['popitem'], ['setdefault', 3, 9], ['items'], ['clear'],
+     'real_timeouts': True, 'ops': [['set', 0, 1], ['update', [1, 2], 5], ['popitem'], ['setdefault', 3, 9], ['items'], ['clear'],
              ['set', 2, 4]]},
+    {'part': 'api', 'kind': 'worker', 'scenario': 'basic', 'maxsize': 1, 'ntasks': 5, 'fail_at': 0, 'daemon': None,
+     'join_every': 2, 'real_timeouts': True},
     {'part': 'api', 'kind': 'misc', 'which': 'threaded-trivial'},
     {'part': 'api', 'kind': 'misc', 'which': 'direct'},
 ]
@@ -726,6 +786,9 @@ FIXED = [
 def run_case(case):
     core.use_repo()
     try:
+        if case['kind'] in ('open', 'worker') and not case.get('real_timeouts'):
+            with fast_timeouts():
+                return RUNNERS[case['kind']](case)
         return RUNNERS[case['kind']](case)
     except Timeout:
         return 'api.hang.' + case['kind'], f'no termination within {DEADLINE} s'
@@ -734,10 +797,18 @@ def run_case(case):
         return f'api.{case["kind"]}.harness-or-impl-exception.{type(e).__name__}', traceback.format_exc()[-600:]
 
 
-def run_cases(ctx, cases):
+def run_cases(ctx, cases, procs=1):
+    if os.environ.get('VERIF_PROCS'):      # e.g. VERIF_PROCS=1 for coverage measurements (everything in-process)
+        procs = int(os.environ['VERIF_PROCS'])
     res = core.Result()
-    for case in cases:
-        sig, detail = run_case(case)
+    if procs > 1 and len(cases) > 20:
+        import multiprocessing
+        import tenpy.tools.cache  # noqa: F401
+        with multiprocessing.get_context('fork').Pool(procs) as pool:
+            outs = pool.map(run_case, cases, chunksize=8)
+    else:
+        outs = [run_case(c) for c in cases]
+    for case, (sig, detail) in zip(cases, outs):
         res.note_case(case, True)
         res.count('api.' + case['kind'] + ('.' + str(case.get('scenario') or case.get('which') or
                                                      case.get('storage_class') or '')).rstrip('.'))
@@ -753,7 +824,12 @@ def run_cases(ctx, cases):
 def gen_cases(ctx, tag='api'):
     rng = ctx.sub_rng(tag)
     q = ctx.quick
+    import json
     cases = list(FIXED)
+    for f in sorted((core.CORPUS_DIR / 'C20').glob('*.json')):
+        c = json.loads(f.read_text())
+        if c.get('part') == 'api':
+            cases.append(c)
     cases += [gen_events_case(rng) for _ in range(400 if q else 20000)]
     cases += [gen_open_case(rng) for _ in range(120 if q else 3000)]
     for which in ('trivial', 'numpy', 'npc'):
@@ -766,13 +842,16 @@ def gen_cases(ctx, tag='api'):
 
 
 def run(ctx):
-    res = run_cases(ctx, gen_cases(ctx))
+    res = run_cases(ctx, gen_cases(ctx), procs=8 if ctx.quick else 14)
     res.extra['anchor_coverage_note'] = COVERAGE_NOTE
     return res
 
 
 def search(ctx):
-    return run_cases(ctx, gen_cases(ctx, 'api-search'))
+    return run_cases(ctx, gen_cases(ctx, 'api-search'), procs=8)
 
 
-COVERAGE_NOTE = 'filled in by the coverage round, see notes/C20.md'
+COVERAGE_NOTE = ('2026-09-26, quick tier seed 0, coverage.py --branch over tenpy/tools/{cache,thread,events}.py, in-process '
+                 '(VERIF_PROCS=1): before the API stream 82% (cache.py 81%, events.py 75%, thread.py 95%; 80 of 507 '
+                 'statements and 20 branches missed); after 99% (cache.py 99%, events.py 100%, thread.py 100%; 0 statements, '
+                 '2 branches missed: Storage.close of a non-owner, Hdf5Storage.close with the file already closed)')
